@@ -3,7 +3,7 @@ from tools.extract import Unit, Rw
 from tools.krun import Harness
 
 PROPERTY = "C04"
-PRELUDE = ["../common/base.rs", "prelude.rs"]
+PRELUDE = ["../common/base.rs", "prelude.rs", "keys.rs"]
 A = "crates/core/src/crypto/aespoly1305.rs"
 R_ERR = Rw("", "verr()", count=None, kind="err", why="RusticError construction (kind/message/context dropped)")
 
@@ -60,6 +60,40 @@ UNITS = [
             && p@ == PT(self.0, data@.subrange(0, 16), data@.subrange(16, data@.len() as int)),
 """),
 ]
+KF = "crates/core/src/repofile/keyfile.rs"
+UNITS += [
+    Unit(name="key_from_backend", file=KF, anchor="pub(crate) fn key_from_backend<B: ReadBackend>(", ret_name="r",
+         functions=["repofile::keyfile::key_from_backend"],
+         rewrites=[Rw("fn key_from_backend<B: ReadBackend>(", "fn key_from_backend(", sig=True, why="backend generic -> key-file store stub"),
+                   Rw("be: &B,", "be: &VKeyBackend,", sig=True, why="backend generic -> key-file store stub"),
+                   Rw("passwd: &impl AsRef<[u8]>,", "passwd: &PasswdR,", sig=True, why="password bytes -> opaque value"),
+                   Rw("RusticResult<Key>", "RusticResult<MasterKey>", sig=True, why="Key -> opaque master key value")],
+         contract="""
+    ensures /*@key_only_if_password_unlocks_this_key_file*/ r matches Ok(k) ==> UNLOCKS(KEYFILE(*be, *id), *passwd) && k == MASTER(KEYFILE(*be, *id), *passwd),
+"""),
+    Unit(name="find_key_in_backend", file=KF, anchor="pub(crate) fn find_key_in_backend<B: ReadBackend>(", ret_name="r",
+         functions=["repofile::keyfile::find_key_in_backend"],
+         rewrites=[R_ERR,
+                   Rw("fn find_key_in_backend<B: ReadBackend>(", "fn find_key_in_backend(", sig=True, why="backend generic -> key-file store stub"),
+                   Rw("be: &B,", "be: &VKeyBackend,", sig=True, why="backend generic -> key-file store stub"),
+                   Rw("passwd: &impl AsRef<[u8]>,", "passwd: &PasswdR,", sig=True, why="password bytes -> opaque value"),
+                   Rw("RusticResult<(Key, KeyId)>", "RusticResult<(MasterKey, KeyId)>", sig=True, why="Key -> opaque master key value"),
+                   Rw("for id in be.list(FileType::Key)? {", "let ids = be.list(FileType::Key)?; for id in it: ids.iter() {", why="Verus for-loop syntax; iteration by reference"),
+                   Rw("&id.into()", "&vkeyid(*id)", why="Id -> KeyId"),
+                   Rw("KeyId(id))", "KeyId(*id))", why="by-reference iteration"),
+         ],
+         contract="""
+    ensures
+        // a repository opens only with a password that unlocks one of its key files (the hinted one if a hint is given),
+        // and what comes back is that key file's master key
+        /*@opens_only_with_a_password_of_a_stored_key*/ r matches Ok(x) ==> UNLOCKS(KEYFILE(*be, x.1), *passwd) && x.0 == MASTER(KEYFILE(*be, x.1), *passwd),
+        /*@opened_key_is_the_hinted_or_a_listed_one*/ r matches Ok(x) ==> (match hint { Some(h) => x.1 == *h, None => exists|i: int| 0 <= i < be.key_ids().len() && x.1.0 == #[trigger] be.key_ids()[i] }),
+""",
+         loops={1: "\n            invariant ids@ == be.key_ids(), hint is None,\n"},
+         hints=[("loop_start", "1", "            proof { assert(0 <= it.index@ < ids@.len()); assert(ids@[it.index@] == *id); assert(be.key_ids()[it.index@] == *id); }\n            let ghost k = it.index@;")],
+         ),
+]
+
 M = "backend::decrypt::verif_kani::"
 KANI = [
     Harness(M + "c04_hash_write_full_stores_ciphertext_under_its_hash", functions=["<backend::decrypt::DecryptBackend as DecryptWriteBackend>::hash_write_full", "backend::decrypt::DecryptBackend::{encrypt_file, very_file, decrypt_file}"], expect_stubs=2, timeout=900),
